@@ -7,7 +7,10 @@ Definition is_perm3 (p : perm3) : Prop :=
 Ltac unf := unfold evals_sort_i_True, evals_sort_d_True, evals_sort_h_True, evals_sort_n_True,
   argsort3, abs3, sub3s, absn, swap01, rev3, gather3, nth3.
 
-Ltac lebs := repeat match goal with |- context [leb ?a ?b] => let E := fresh "E" in destruct (leb a b) eqn:E end.
+Ltac lebs := repeat match goal with |- context [leb ?a ?b] =>
+  lazymatch a with context [leb] => fail | _ => idtac end;
+  lazymatch b with context [leb] => fail | _ => idtac end;
+  let E := fresh "E" in destruct (leb a b) eqn:E end.
 
 (* 1. the output is the input rearranged by the returned permutation *)
 Lemma sort_perm_i e : let '(s,p) := evals_sort_i_True e in s = gather3 e p /\ is_perm3 p.
@@ -108,6 +111,28 @@ Proof.
   - destruct e as [[a b] c]. revert D. unfold key. generalize (avg3 (a,b,c)); intro m.
     destruct c2 as [|[|[|c2]]]; unfold distinct3, key, kfun, abs3, sub3s, absn; intros (D1 & D2 & D3); repeat split; try assumption. all: try (intro H; first [apply D1; lra | apply D2; lra | apply D3; lra]).
 Qed.
+
+(* canonical order: the ordered spectrum depends only on the multiset of eigenvalues *)
+Lemma sort_canonical_l c l l' : Perm3 l l' -> distinct3 (key c l) -> sortc c l' = sortc c l.
+Proof.
+  intros P D. apply (pos_inj c).
+  apply (chain_unique (kfun c (avg3 l)) l).
+  - apply pos_perm. eapply Perm3_trans; [exact P | apply sortc_perm].
+  - apply pos_perm, sortc_perm.
+  - rewrite <- (Perm3_avg l l' P). apply sortc_chain.
+  - apply sortc_chain.
+  - destruct l as [[a b] c0]. revert D. unfold key. generalize (avg3 (a,b,c0)); intro m.
+    destruct c as [|[|[|c]]]; unfold distinct3, kfun, abs3, sub3s, absn; intros (D1 & D2 & D3); repeat split; try assumption;
+    intro H; first [apply D1; lra | apply D2; lra | apply D3; lra].
+Qed.
+
+Lemma sort_canonical_id_l c l l' : (c < 2)%nat -> Perm3 l l' -> sortc c l' = sortc c l.
+Proof.
+  intros Hc. destruct l as [[a b] c0]. unfold Perm3.
+  destruct c as [|[|c]]; try lia; intros [H|[H|[H|[H|[H|H]]]]]; subst l'; unfold sortc; unf; cbn [fst];
+  lebs; cbn; bools; pairs; lra.
+Qed.
+
 
 (* F-01: with ties between keys of distinct values re-ordering differs from constructing *)
 Lemma reorder_ties_refuted : exists e, sortc 3 (sortc 1 e) <> sortc 3 e.
